@@ -533,7 +533,7 @@ func main() {
 	}
 
 	g := &gen{r: r, allowEmpty: true, allowArrayUnderDyn: true}
-	total := o.Count(500, 30000)
+	total := o.Count(500, 10000)
 	fnames := []string{"xml", "xml", "xml", "xml", "json", "json", "json", "csv", "fixed-length"}
 	for i := 0; i < total; i++ {
 		fname := fnames[r.Pick(len(fnames))]
@@ -592,11 +592,11 @@ func main() {
 		h.runCase(c, ds, defect, g.twins > 0 || twoRefs || g.bigArrays > 0, true)
 	}
 	// ---- second stream: many same-shaped records through javascript_with_context ----
-	for i := 0; i < o.Count(30, 1500); i++ {
+	for i := 0; i < o.Count(30, 600); i++ {
 		h.jsRecords(r, i)
 	}
 	// ---- third stream: type casts of awkward literals ----
-	for i := 0; i < o.Count(100, 4000); i++ {
+	for i := 0; i < o.Count(100, 2000); i++ {
 		h.castRecords(r, i)
 	}
 	cw.Flush()
